@@ -29,6 +29,21 @@ import (
 // list being the result of `FilterTasks()` before any `.Filtered(` is applied to it
 // (model: Own.tdMsg names effHooks; Cfg.lastWeightOnly is the negation — C06_hook_release_is_code).
 
+// teardownReadsUnderMutex — TeardownEnvironment. Holds iff the function looks the environment up
+// (`env, err := ….environment(…)`), then has a top-level `if !env.transitionMutex.TryLock() { … env.transitionMutex.Lock() … }`
+// directly followed by `defer env.transitionMutex.Unlock()`, NO field or method of `env` is touched before that
+// if-statement, and `env.Workflow()` is read at least once after it. Then whatever the teardown learns about the
+// environment — its state, its task list, its hooks — it learns while it holds the transition mutex, i.e. about the
+// environment as it is when the teardown is SERVED, not as it was when the request arrived
+// (model: Own.teardown s k reads `s.env? k` of the state it is applied to — C06_teardown_reads_under_mutex_is_code).
+
+// teardownLookupNestedRLock — TeardownEnvironment and (*Manager).environment. Holds iff TeardownEnvironment calls
+// `….environment(…)` in the statement between a top-level `envs.mu.RLock()` and the matching `envs.mu.RUnlock()`, AND
+// `environment` itself read-locks `envs.mu` (RLock + deferred RUnlock): the read lock is taken twice by one goroutine.
+// sync.RWMutex is not reentrant — a writer that calls Lock() between the two makes the second RLock wait for the writer,
+// which waits for the first: the environment manager's mutex is dead (model: Own.Rw with nested = Rw.nestedInCode —
+// C06_lookup_is_code; finding teardown_recursive_rlock).
+
 func exprStr(fset *token.FileSet, n ast.Node) string {
 	var b bytes.Buffer
 	printer.Fprint(&b, fset, n)
@@ -275,7 +290,129 @@ func hookReleaseFacts(repo string) (hookFacts, error) {
 	return hf, nil
 }
 
+type mutexFacts struct {
+	lookup, tryLockThenLock, deferredUnlock bool
+	readsBefore, workflowReadsAfter         int
+	ok                                      bool
+}
+
+func teardownMutexFacts(repo string) (mutexFacts, error) {
+	fset := token.NewFileSet()
+	f, err := parser.ParseFile(fset, filepath.Join(repo, "core/environment/manager.go"), nil, 0)
+	if err != nil {
+		return mutexFacts{}, err
+	}
+	fn := findFunc(f, "TeardownEnvironment")
+	if fn == nil {
+		return mutexFacts{}, fmt.Errorf("core/environment/manager.go: TeardownEnvironment not found")
+	}
+	var mf mutexFacts
+	envVar := ""
+	lockIdx := -1
+	for i, st := range fn.Body.List {
+		if as, ok := st.(*ast.AssignStmt); ok && envVar == "" && as.Tok == token.DEFINE && len(as.Lhs) >= 1 && len(as.Rhs) == 1 &&
+			isSelCall(as.Rhs[0], ".environment", fset) {
+			if id, ok := as.Lhs[0].(*ast.Ident); ok {
+				envVar = id.Name
+				mf.lookup = true
+			}
+			continue
+		}
+		if is, ok := st.(*ast.IfStmt); ok && envVar != "" && lockIdx < 0 &&
+			strings.Contains(exprStr(fset, is.Cond), envVar+".transitionMutex.TryLock()") {
+			lockIdx = i
+			ast.Inspect(is.Body, func(n ast.Node) bool {
+				if ce, ok := n.(*ast.CallExpr); ok && exprStr(fset, ce.Fun) == envVar+".transitionMutex.Lock" {
+					mf.tryLockThenLock = true
+				}
+				return true
+			})
+		}
+	}
+	if envVar == "" || lockIdx < 0 {
+		return mf, nil
+	}
+	if lockIdx+1 < len(fn.Body.List) {
+		if ds, ok := fn.Body.List[lockIdx+1].(*ast.DeferStmt); ok && exprStr(fset, ds.Call.Fun) == envVar+".transitionMutex.Unlock" {
+			mf.deferredUnlock = true
+		}
+	}
+	touches := func(st ast.Stmt, only string) int {
+		n := 0
+		ast.Inspect(st, func(x ast.Node) bool {
+			se, ok := x.(*ast.SelectorExpr)
+			if !ok {
+				return true
+			}
+			if id, ok := se.X.(*ast.Ident); ok && id.Name == envVar && (only == "" || se.Sel.Name == only) {
+				n++
+			}
+			return true
+		})
+		return n
+	}
+	for i, st := range fn.Body.List {
+		switch {
+		case i < lockIdx:
+			mf.readsBefore += touches(st, "")
+		case i > lockIdx+1:
+			mf.workflowReadsAfter += touches(st, "Workflow")
+		}
+	}
+	mf.ok = mf.lookup && mf.tryLockThenLock && mf.deferredUnlock && mf.readsBefore == 0 && mf.workflowReadsAfter > 0
+	return mf, nil
+}
+
+type lookupFacts struct {
+	callerHoldsRLock, calleeRLocks bool
+}
+
+func lookupLockFacts(repo string) (lookupFacts, error) {
+	fset := token.NewFileSet()
+	f, err := parser.ParseFile(fset, filepath.Join(repo, "core/environment/manager.go"), nil, 0)
+	if err != nil {
+		return lookupFacts{}, err
+	}
+	fn := findFunc(f, "TeardownEnvironment")
+	if fn == nil {
+		return lookupFacts{}, fmt.Errorf("core/environment/manager.go: TeardownEnvironment not found")
+	}
+	callee := findFunc(f, "environment")
+	if callee == nil {
+		return lookupFacts{}, fmt.Errorf("core/environment/manager.go: (*Manager).environment not found")
+	}
+	var lf lookupFacts
+	isMu := func(st ast.Stmt, method string) bool {
+		es, ok := st.(*ast.ExprStmt)
+		return ok && isSelCall(es.X, ".mu."+method, fset) && strings.HasSuffix(exprStr(fset, es.X), ".mu."+method+"()")
+	}
+	for i, st := range fn.Body.List {
+		as, ok := st.(*ast.AssignStmt)
+		if !ok || len(as.Rhs) != 1 || !isSelCall(as.Rhs[0], ".environment", fset) {
+			continue
+		}
+		if i > 0 && i+1 < len(fn.Body.List) && isMu(fn.Body.List[i-1], "RLock") && isMu(fn.Body.List[i+1], "RUnlock") {
+			lf.callerHoldsRLock = true
+		}
+	}
+	ast.Inspect(callee.Body, func(n ast.Node) bool {
+		if ce, ok := n.(*ast.CallExpr); ok && isSelCall(ce, ".mu.RLock", fset) {
+			lf.calleeRLocks = true
+		}
+		return true
+	})
+	return lf, nil
+}
+
 func genFacts(repo string) (string, error) {
+	mf, err := teardownMutexFacts(repo)
+	if err != nil {
+		return "", err
+	}
+	lf, err := lookupLockFacts(repo)
+	if err != nil {
+		return "", err
+	}
 	rf, err := rendezvousFacts(repo)
 	if err != nil {
 		return "", err
@@ -298,6 +435,17 @@ func genFacts(repo string) (string, error) {
 	fmt.Fprintf(&b, "def hookReleaseAllWeights : Bool := %v\n\n", hf.ok)
 	fmt.Fprintf(&b, "/-- (re-assignments of taskmanMessage, of which inside a loop) -/\ndef hookReleaseCounts : Nat × Nat := (%d, %d)\n\n",
 		hf.reassignments, hf.inLoop)
+	b.WriteString("/-- core/environment/manager.go, TeardownEnvironment (go/ast): the environment is looked up, then\n" +
+		"    `if !env.transitionMutex.TryLock() { … env.transitionMutex.Lock() … }; defer env.transitionMutex.Unlock()`, no field or method\n" +
+		"    of `env` is touched before that, and `env.Workflow()` is read after it -/\n")
+	fmt.Fprintf(&b, "def teardownReadsUnderMutex : Bool := %v\n\n", mf.ok)
+	fmt.Fprintf(&b, "/-- (uses of `env.…` before the mutex is taken, reads of `env.Workflow()` after it) -/\ndef teardownMutexCounts : Nat × Nat := (%d, %d)\n\n",
+		mf.readsBefore, mf.workflowReadsAfter)
+	b.WriteString("/-- core/environment/manager.go (go/ast): TeardownEnvironment calls `envs.environment(…)` between `envs.mu.RLock()` and\n" +
+		"    `envs.mu.RUnlock()`, and `environment` read-locks `envs.mu` itself: one goroutine takes the read lock twice -/\n")
+	fmt.Fprintf(&b, "def teardownLookupNestedRLock : Bool := %v\n\n", lf.callerHoldsRLock && lf.calleeRLocks)
+	fmt.Fprintf(&b, "/-- (the caller holds a read lock around the call, the callee read-locks) -/\ndef teardownLookupLocks : Bool × Bool := (%v, %v)\n\n",
+		lf.callerHoldsRLock, lf.calleeRLocks)
 	b.WriteString("end Gen\n")
 	return b.String(), nil
 }
